@@ -52,7 +52,7 @@ def gen(rng, i, tier):
         ops.append(rng.choice([["attr", "title", F.rand_str(r, codec)], ["set", "CREDIT", F.rand_str(r, codec)], ["del", "ARTIST"], ["set", "SUBTITLE", None],
                                ["dupchart"], ["delchart"], ["attr", "artist", ""],
                                ["notes", rng.choice(["1000\n0:00", "10;0\n0000", "00\\00\n0001", "0000 // beat 1\n0000", "{tornado:1.5}0\n0000"])]]))
-    return {"fmt": fmt, "data": data.hex(), "try": tr, "explicit": rng.choice([None, None, None, det, "utf-8"]), "output": rng.random() < 0.4,
+    return {"fmt": fmt, "data": data.hex(), "try": tr, "explicit": rng.choice([None, None, None, det, "utf-8"]), "output": rng.choice([False, False, False, True, True, "same"]),
             "backup": rng.choice([None, None, "ok", "ok", "clash_input", "clash_output"]), "ops": ops, "fs": rng.choice(["native", "mem"]), "seed": seed}
 
 
@@ -67,7 +67,7 @@ def parse_as(fmt, path, enc, fsys):
 
 
 def names(c, sc):
-    out = sc.path("out." + c["fmt"]) if c["output"] else None
+    out = sc.input if c["output"] == "same" else sc.path("out." + c["fmt"]) if c["output"] else None      # "same": the input's own name given as the output name
     bak = {None: None, "ok": sc.path("in." + c["fmt"] + ".bak"), "clash_input": sc.input, "clash_output": out or sc.input}[c["backup"]]
     return out, bak
 
@@ -152,7 +152,7 @@ def paths(c):
     # the scenario root differs per run on the native file system: the model works on canonical names, mapped back when comparing
     root = "/song"
     inp = root + "/in." + c["fmt"]
-    out = root + "/out." + c["fmt"] if c["output"] else None
+    out = inp if c["output"] == "same" else root + "/out." + c["fmt"] if c["output"] else None
     bak = {None: None, "ok": inp + ".bak", "clash_input": inp, "clash_output": out or inp}[c["backup"]]
     return inp, out, bak
 
@@ -277,8 +277,8 @@ def oracle(c, o):
     want_names = {inp, out or inp} | ({bak} if bak else set())
     if set(files) != want_names:
         return "files after mutate: %s, expected %s" % (sorted(files), sorted(want_names))
-    if out and files[inp] != c["data"]:
-        return "input file changed although an output name was given"
+    if out and out != inp and files[inp] != c["data"]:
+        return "input file changed although another output name was given"
     if o.get("out_parses_to") != ["ok", o["exit"]]:
         return "output file does not parse to the simfile at block exit: %s vs %s" % (str(o.get("out_parses_to"))[:200], str(o["exit"])[:200])
     if bak and o.get("bak_parses_to") != ["ok", o["entry"]]:
@@ -293,7 +293,7 @@ def nontrivial(c, o):
 
 
 def describe(c):
-    return "%s/%s/out%d/bak%s/%s" % (c["fmt"], c["fs"], c["output"], c["backup"], "custom" if c["try"] else "default")
+    return "%s/%s/out%s/bak%s/%s" % (c["fmt"], c["fs"], {False: 0, True: 1}.get(c["output"], c["output"]), c["backup"], "custom" if c["try"] else "default")
 
 
 def shrink(c):
